@@ -158,6 +158,9 @@ def run_histories(sh, *, select, make_cfg=None, steps_range=(4, 8), twin_prob=0.
                     sr = w.clean()
                     sh.count('cleans')
                     sh.evaluations += 1
+                    for k, v in sr.mon.counts.items():
+                        if k[2] == 'lib':
+                            sh.count('ev:%s|%s' % (k[0], k[1]), v)
                     if handle_divs(sh, w, program, sr, select):
                         cut = True
                         break
